@@ -504,6 +504,13 @@ func (t *Target) synced() bool {
 	return t.sync
 }
 
+// latestTimestamp returns the latest target timestamp recorded so far.
+func (t *Target) latestTimestamp() time.Time {
+	t.tsmu.Lock()
+	defer t.tsmu.Unlock()
+	return t.ts
+}
+
 func (t *Target) resetTimestamp() {
 	defer t.tsmu.Unlock()
 	t.tsmu.Lock()
@@ -571,13 +578,14 @@ func (t *Target) gnmiUpdate(n *pb.Notification) (*ctree.Leaf, error) {
 				return nil, ErrStale
 			}
 		case t.futureThreshold > 0 && nts.Sub(Now()) > t.futureThreshold:
-			if t.ts.UnixNano() <= 0 {
+			latest := t.latestTimestamp()
+			if latest.UnixNano() <= 0 {
 				// This is the first accepted update as t.ts is uninitialized (assuming
 				// the first accepted timestamp is > 0 (1970-01-01 00:00:00 UTC).
 				log.Warningf("Accepting the first update with a timestamp in the future %s", prototext.Format(n))
-			} else if nts.Sub(t.ts) <= t.futureThreshold {
+			} else if nts.Sub(latest) <= t.futureThreshold {
 				if log.V(1) {
-					log.Warningf("Accepting non-first update with a timestamp in the future but not exceeding the threshold comparing with latestTimestamp (%v): %s", t.ts, prototext.Format(n))
+					log.Warningf("Accepting non-first update with a timestamp in the future but not exceeding the threshold comparing with latestTimestamp (%v): %s", latest, prototext.Format(n))
 				}
 			} else {
 				t.meta.AddInt(metadata.FutureCount, 1)
